@@ -177,7 +177,8 @@ def _second_opinion(prop, exports):
         with open(fn, 'w') as f:
             f.write('(set-logic ALL)\n' + text)
         files.append(fn)
-    res = {'exported': len(files), 'solvers': {}, 'disagree': []}
+    res = {'exported': len(files), 'solvers': {}, 'disagree': [],
+           'unconfirmed': []}
 
     def run(job):
         name, cmd, fn = job
@@ -194,14 +195,24 @@ def _second_opinion(prop, exports):
     jobs = [(n, c, fn) for n, c in solvers for fn in files]
     with concurrent.futures.ThreadPoolExecutor(16) as ex:
         for name, fn, first in ex.map(run, jobs):
-            st = res['solvers'].setdefault(name, {'unsat': 0, 'other': 0})
+            st = res['solvers'].setdefault(name, {'unsat': 0, 'other': 0,
+                                                  'no_answer': 0})
             if first == 'unsat':
                 st['unsat'] += 1
+            elif first in ('timeout', 'unknown'):
+                # the second solver gave no verdict within its limit: that
+                # obligation is simply not cross-checked (counted, reported
+                # in the evidence); only a contrary verdict or an error in
+                # the exported text calls the engine's answer into question
+                st['no_answer'] += 1
+                res['unconfirmed'].append('%s %s: %s' % (
+                    name, os.path.basename(fn), first))
             else:
                 st['other'] += 1
                 res['disagree'].append('%s %s: %s' % (
                     name, os.path.basename(fn), first[:120]))
     shutil.rmtree(d, ignore_errors=True)
+    res['unconfirmed'] = res['unconfirmed'][:10]
     return res
 
 
